@@ -141,6 +141,9 @@ def main(run):
     for w in ("1", "2", "3", "63", "64", "65"):
         add(G.rpu_exhaustive(w, ["v0", "v1", "v2", "v3", "v4", "v40", "v41", "v42", "r"], 3 if quick else 4),
             "unit-exhaustive")
+    add(G.rpu_width_probes(("32", "64") if quick else ("1", "2", "32", "33", "63", "64", "100", "4294967295")), "unit-width")
+    add(G.rpd_width_probes(("32",) if quick else ("2", "32", "64")), "request-width")
+    add(G.rpx_width_probes(), "dualrole-width")
     add(G.rpu_sweep(("32", "64") if quick else ("1", "2", "31", "32", "33", "62", "63", "64", "65", "66", "100")),
         "unit-sweep")
     for w in (("2", "32") if quick else ("1", "2", "3", "32", "64")):
